@@ -1,3 +1,5 @@
+pub mod c06;
+pub mod c17;
 pub mod crashprops;
 pub mod seqprops;
 
@@ -6,6 +8,8 @@ use crate::env::Tier;
 pub fn dispatch(id: &str, tier: Tier, seed: u64, replay: Option<&str>) -> i32 {
     match id {
         "C01" | "C05" | "C10" | "C11" | "C12" | "C13" | "C14" | "C16" => seqprops::run(id, tier, seed, replay),
+        "C06" => c06::run(tier, seed, replay),
+        "C17" => c17::run(tier, seed, replay),
         "C02" => crashprops::run("C02", tier, seed, replay),
         "C03" => crashprops::run("C03", tier, seed, replay),
         "C04" => crashprops::run("C04", tier, seed, replay),
